@@ -75,6 +75,8 @@ FAILING = [
     ('inf-idx', 'DIM a%(3)\nx# = 1D+308\ny# = x# * 1000\nPRINT a%(y#)'), ('inf-chr', 'x# = 1D+308\ny# = x# * 1000\nPRINT CHR$(y#)'),
     ('inf-for', 'x# = 1D+308\ny# = x# * 1000\nFOR i% = 1 TO y#\nNEXT'), ('nan-cmp', 'x# = 1D+308\ny# = x# * 1000\nz# = y# - y#\nIF z# = z# THEN PRINT 1 ELSE PRINT 0'),
     ('big-string', 's$ = "x"\nFOR i% = 1 TO 12\ns$ = s$ + s$\nNEXT\nPRINT LEN(s$)'),
+    # an array that is never DIMmed, first used through a reference (READ target); ERR before any error
+    ('implicit-array-read', 'DATA 5\nREAD q%(2)\nPRINT q%(2); q%(0)'), ('err-before-error', 'PRINT ERR'),
 ]
 MODES = ['none', 'goto-rn', 'goto-resume', 'goto-nores', 'resume-next', 'in-sub', 'in-sub-rn', 'goto-off']
 
